@@ -100,7 +100,19 @@ def _reader(ctx, pkg):
     for f in fl.facts:
         if f.kind == "attrstore" and f.extra.get("obj") == SELF:
             stores[f.target] = f
-    return {"fn": fn, "flow": fl, "stores": stores, "opaque": _opaque_self_calls(fn, ("_create_species",))}
+    return {"fn": fn, "flow": fl, "stores": stores, "opaque": _opaque_self_calls(fn, ("_create_species",)), "dynamic": _dynamic_stores(fn)}
+
+
+def _dynamic_stores(fn):
+    """places where a function stores attributes by a name it computes (setattr(x, name, v), x.__dict__ / vars(x) updated): what they
+    assign is not visible, so "never assigned" is not a conclusion"""
+    out = []
+    for c in ast.walk(fn):
+        if isinstance(c, ast.Call) and isinstance(c.func, ast.Name) and c.func.id in ("setattr", "vars"):
+            out.append(ast.unparse(c)[:60])
+        elif isinstance(c, ast.Attribute) and c.attr == "__dict__":
+            out.append(ast.unparse(c)[:60])
+    return out
 
 
 def _opaque_self_calls(fn, known=()):
@@ -239,8 +251,9 @@ def _r1_r2(ctx, w, r):
     for attr in ("idxfromfile", "alpha", "beta", "gamma", "temp_min", "temp_max", "reaction_type", "source"):
         f = st.get(attr)
         if f is None:
-            if r.get("opaque"):
-                ctx.unrec("R1", f"reader:{attr}", R, f"no assignment of self.{attr} is visible in the reader, but it calls helpers that are not understood: {r['opaque'][:3]}")
+            if r.get("opaque") or r.get("dynamic"):
+                ctx.unrec("R1", f"reader:{attr}", R, f"no assignment of self.{attr} is visible in the reader, but it " + (f"calls helpers that are not understood: {r['opaque'][:3]}" if r.get("opaque") else
+                          f"stores attributes by computed name: {r['dynamic'][:2]}"))
             else:
                 ctx.bad("R1", f"reader:{attr}", R, f"the reader never assigns self.{attr}")
             continue
@@ -299,17 +312,35 @@ def _r1_r2(ctx, w, r):
             continue
         ctx.check(ok, "R1", f"reader:{attr}:slice", (RFILE, f.line if f else r["fn"].lineno),
                   f"{attr} are read from the {hi - lo} fields the writer fills for them", expected=f"fields[{lo}:{hi}] after the index", found=found)
-        ctx.check(stripped, "R2", f"reader:{attr}:strip", (RFILE, f.line if f else r["fn"].lineno), f"padded species names are stripped before they are parsed")
+        if f is not None and not stripped and m and any(isinstance(x, tuple) and x and ((x[0] == "call" and x[1] != ("global", "str")) or
+                                                         (x[0] == "meth" and x[2] not in ("_create_species", "strip", "lstrip", "rstrip"))) for x in walk(m[1])):
+            ctx.unrec("R2", f"reader:{attr}:strip", (RFILE, f.line), f"the species names pass through a call that is not understood before they are parsed: {show(m[1])[:80]}")
+        else:
+            ctx.check(stripped, "R2", f"reader:{attr}:strip", (RFILE, f.line if f else r["fn"].lineno), f"padded species names are stripped before they are parsed")
     # R2 inverses
+    KNOWN_CONV = {"int", "float", "str", "strip", "rstrip", "lstrip", "ReactionType", "BasicType"}
+
+    def strange(wraps):
+        """converters on the way from the field to the attribute that this rule does not know (a helper of the package ..)"""
+        return [w_ for w_ in wraps if w_ not in KNOWN_CONV]
     for attr, conv in NUMERIC.items():
         if attr in pos:
             wraps = pos[attr][1]
+            if conv not in wraps and strange(wraps):
+                ctx.unrec("R2", f"reader:{attr}:{conv}()", (RFILE, pos[attr][2].line), f"the text of {attr} passes through {strange(wraps)}, which is not understood")
+                continue
             ctx.check(conv in wraps, "R2", f"reader:{attr}:{conv}()", (RFILE, pos[attr][2].line), f"the text of {attr} is converted back with {conv}()", found=str(wraps))
     if "reaction_type" in pos:
         wraps = pos["reaction_type"][1]
-        ctx.check(wraps[:2] == ["ReactionType", "int"], "R2", "reader:reaction_type:ReactionType(int())", (RFILE, pos["reaction_type"][2].line),
-                  "the type code is converted back with ReactionType(int(..))", found=str(wraps))
-    if "source" in pos:
+        core = [w_ for w_ in wraps if w_ not in ("strip", "rstrip", "lstrip")]
+        if core[:2] != ["ReactionType", "int"] and strange(wraps):
+            ctx.unrec("R2", "reader:reaction_type:ReactionType(int())", (RFILE, pos["reaction_type"][2].line), f"the type code passes through {strange(wraps)}, which is not understood")
+        else:
+            ctx.check(core[:2] == ["ReactionType", "int"], "R2", "reader:reaction_type:ReactionType(int())", (RFILE, pos["reaction_type"][2].line),
+                      "the type code is converted back with ReactionType(int(..))", found=str(wraps))
+    if "source" in pos and "strip" not in pos["source"][1] and strange(pos["source"][1]):
+        ctx.unrec("R2", "reader:source:strip", (RFILE, pos["source"][2].line), f"the source tag passes through {strange(pos['source'][1])}, which is not understood")
+    elif "source" in pos:
         wraps = pos["source"][1]
         # the whole line may have been stripped before splitting
         pre = line is not None and line[0] == "meth" and line[2] in ("strip", "rstrip")
@@ -327,15 +358,25 @@ def _r1_r2(ctx, w, r):
                   f"format spec {bad} truncates species names longer than its precision: the name read back is a different species", found=str(specs))
         # the written name must be the species' own name
         nm = [x for x in walk(body) if isinstance(x, tuple) and len(x) == 4 and x[0] == "fmt"]
-        ctx.check(bool(nm) and nm[0][1] in (bv, ("attr", bv, "name")), "R2", f"writer:{src.lower()}:name", W, "the written token is the species name itself", found=show(body)[:80])
+        if nm and nm[0][1] in (bv, ("attr", bv, "name")):
+            ctx.ok("R2", f"writer:{src.lower()}:name", W, "the written token is the species name itself")
+        elif nm and nm[0][1][0] == "attr" and nm[0][1][1] == bv:
+            ctx.bad("R2", f"writer:{src.lower()}:name", W, f"the written token is the species' `{nm[0][1][2]}`, not its name: the reader builds the species from this text", found=show(body)[:80])
+        else:
+            ctx.unrec("R2", f"writer:{src.lower()}:name", W, f"cannot see which text of the species is written: {show(body)[:80]}")
     for f in fields:
         if f[0] == "scalar" and f[1][0] == "fmt":
             x, spec = f[1][1], f[1][2]
             attr = x[2] if x[0] == "attr" else None
-            if attr == "source":
-                ctx.check(isinstance(spec, str) and "." not in spec, "R2", "writer:source:format", W, "the source tag is padded, never truncated", found=str(spec))
+            if attr == "source" and spec is not None and not isinstance(spec, str):
+                ctx.unrec("R2", "writer:source:format", W, "the format of the source tag is not a literal spec")
+            elif attr == "source":
+                ctx.check(spec is None or "." not in spec, "R2", "writer:source:format", W, "the source tag is padded, never truncated", found=str(spec))
             if attr in ("alpha", "beta", "gamma"):
-                ctx.check(isinstance(spec, str) and spec.endswith("e"), "R2", f"writer:{attr}:format", W, "coefficients are written in exponent notation (no loss of small magnitudes)", found=str(spec))
+                if not isinstance(spec, str):
+                    ctx.unrec("R2", f"writer:{attr}:format", W, f"the format of {attr} is not a literal spec: {show(spec)[:60] if isinstance(spec, tuple) else spec!r}")
+                else:
+                    ctx.check(spec.endswith("e"), "R2", f"writer:{attr}:format", W, "coefficients are written in exponent notation (no loss of small magnitudes)", found=str(spec))
 
 
 def _r3(ctx, rm, pkg):
@@ -361,7 +402,15 @@ def _r4(ctx, pkg):
     writes = [f for f in fl.facts if f.kind == "call" and f.target == "write"]
     rec = [f for f in writes if f.loops and any(isinstance(x, tuple) and len(x) == 4 and x[0] == "fmt" and x[1][0] == "elem" for x in walk(simp(f.value)))]
     ok = len(rec) == 1 and len(rec[0].loops) == 1 and simp(rec[0].loops[0].iter) == ("attr", SELF, "reaction_list") and not rec[0].guards
-    if not rec or (len(rec) > 1 and all(f.guards for f in rec)):
+    RL = ("attr", SELF, "reaction_list")
+    # what is walked is understood when it is the reaction list itself or a visible selection / re-ordering of it
+    it0 = simp(rec[0].loops[0].iter) if len(rec) == 1 and len(rec[0].loops) == 1 else None
+    seen_iter = it0 is not None and (it0 == RL or ((it0[0] in ("sub", "comp") or (it0[0] == "call" and it0[1][0] == "global" and it0[1][1] in ("sorted", "reversed", "filter", "set")))
+                                                   and any(x == RL for x in walk(it0))))
+    if rec and len(rec) == 1 and not ok and not (seen_iter and len(rec[0].loops) == 1):
+        ctx.unrec("R4", "Network.write:one-record-per-reaction", (NET, fn.lineno), "cannot see that the loop writing the records walks self.reaction_list: "
+                  + "; ".join(show(simp(lp_.iter))[:60] for lp_ in rec[0].loops))
+    elif not rec or (len(rec) > 1 and all(f.guards for f in rec)):
         # no write of a formatted loop element found / one write per branch: the way records are written is not understood
         ctx.unrec("R4", "Network.write:one-record-per-reaction", (NET, fn.lineno), f"cannot find the single write of the formatted reaction inside the loop over the reactions ({len(rec)} candidates)")
     else:
@@ -468,8 +517,8 @@ def _r5(ctx, rm, pkg):
             # compare every format variant with the native variant under the same coefficient assumptions
             for v, extra in farms:
                 txt, names = variant_text(v)
-                if any(x is None for x in names.values()):
-                    ctx.unrec("R5", key, (v.file, v.line), "unrecognised hole in the format-class template")
+                if any(x is None for x in names.values()) or v.seqs:
+                    ctx.unrec("R5", key, (v.file, v.line), "unrecognised hole / joined sequence in the format-class template")
                     continue
                 zero = {COEFF[c]: not val for c, val in v.assume.items() if c in COEFF}
                 env0 = {k: 0.0 for k, z in zero.items() if z}
@@ -477,7 +526,7 @@ def _r5(ctx, rm, pkg):
                 nopen = False           # a hole of the native template that is not understood (neither a coefficient nor the first reactant)
                 for nv, _ in narms:
                     ntxt, nnames = variant_text(nv)
-                    nopen = nopen or any(x is None for x in nnames.values())
+                    nopen = nopen or any(x is None for x in nnames.values()) or bool(nv.seqs)
                     nz = {COEFF[c]: not val for c, val in nv.assume.items() if c in COEFF}
                     if all(zero.get(k, False) == z for k, z in nz.items()):
                         cands.append(ntxt)
@@ -847,7 +896,10 @@ def _r6(ctx, pkg):
         at = next(i for i, c in enumerate(calls) if c is w[0])
         later = [c for c in calls[at + 1:] if ast.unparse(c.func) == "NetworkConfiguration" or (isinstance(c.func, ast.Attribute) and c.func.attr in ("render", "write") and
                                                                                              ast.unparse(c.func) != "self.write")]
-        if dom is not None:
+        if dom is True and len(later) < 2:
+            ctx.unrec("R6", "Network.export:reaction-file on every continuing path", (NET, w[0].lineno), "cannot see the configuration / source rendering that follows the write of reactions.naunet "
+                      f"({len(later)} of the NetworkConfiguration(..) / .render(..) / .write(..) calls found after it)")
+        elif dom is not None:
             ctx.check(dom is True and len(later) >= 2, "R6", "Network.export:reaction-file on every continuing path", (NET, w[0].lineno),
                       "every path that reaches the configuration/source rendering has (re)written reactions.naunet" if dom else
                       "reactions.naunet is written only on some of the paths that go on to regenerate the configuration and sources: re-exporting into an existing project "
@@ -906,6 +958,11 @@ def _r6(ctx, pkg):
             if shape:
                 bv, body, base, ifs = m
                 ok = tuple(ifs) == (("attr", bv, "is_surface"),) and body == ("tuple", (("attr", bv, "name"), ("attr", bv, attr)))
+                # positive evidence = a filter / entry made of plain attribute tests of the species; a call in there is not understood
+                plain = not any(isinstance(x, tuple) and x and x[0] in ("call", "meth", "sub", "unknown") for c_ in tuple(ifs) + (body,) for x in walk(c_))
+                if not ok and not plain:
+                    ctx.unrec("R6", f"NetworkConfiguration:{nm}", (CONF, vals[-1][3]), f"the exported {nm} table is built with calls that are not understood: {show(v)[:120]}")
+                    continue
                 found = "{" + f"{show(body[1][0])}: {show(body[1][1])}" + "} " + f"for {show(bv)} in {show(base)}" + "".join(f" if {show(c)}" for c in ifs) if body[0] == "tuple" and len(body[1]) == 2 else found
             if not shape:
                 # not a table built per species (a helper's result, a merged dict ..): nothing visible is wrong
@@ -915,8 +972,8 @@ def _r6(ctx, pkg):
                   f"the exported table holds {attr} of every surface species of the network (values set through the API included)",
                   expected=f"{{s.name: s.{attr} for s in network.species if s.is_surface}}", found=found)
     for tgt, what in (("_bindingenergy", "binding energies"), ("_photonyield", "yields")):
-        if tgt not in stv and opaque_init:
-            ctx.unrec("R6", f"NetworkConfiguration:{tgt}", (CONF, init.lineno), f"no assignment of self.{tgt} is visible, but the constructor calls helpers that are not understood: {opaque_init[:3]}")
+        if tgt not in stv and (opaque_init or _dynamic_stores(init)):
+            ctx.unrec("R6", f"NetworkConfiguration:{tgt}", (CONF, init.lineno), f"no assignment of self.{tgt} is visible, but the constructor calls helpers / stores by computed name: {(opaque_init or _dynamic_stores(init))[:3]}")
         else:
             ctx.check(tgt in stv, "R6", f"NetworkConfiguration:{tgt}", (CONF, init.lineno), f"the exported {what} are that table")
 
